@@ -4,14 +4,20 @@ LEVEL = 'proof'
 
 TUS = {
     'constraints': dict(src='#include <Bpp/Numeric/Constraints.h>\n', filter='bpp::IntervalConstraint'),
+    'param': dict(src='#include "/repo/src/Bpp/Numeric/Parameter.cpp"\n', filter='bpp::Parameter', flags=['-I/repo/src/Bpp/Numeric']),
+    'autoparam': dict(src='#include "/repo/src/Bpp/Numeric/AutoParameter.cpp"\n', filter='bpp::AutoParameter', flags=['-I/repo/src/Bpp/Numeric']),
 }
+PA = 'bpp::Parameter'
+AP = 'bpp::AutoParameter'
+PE = 'bpp::ParameterEvent'
+VL = 'std::vector<std::shared_ptr<bpp::ParameterListener>>'
 
 IC = 'bpp::IntervalConstraint'
 CI = 'bpp::ConstraintInterface'
 
 CFG = dict(
     types={},
-    plain={IC},
+    plain={IC, PE},
     rename={
         (IC, 'operator<', 1, 'bool (double) const'): 'IntervalConstraint__op_lt_d',
         (IC, 'operator>', 1, 'bool (double) const'): 'IntervalConstraint__op_gt_d',
@@ -19,16 +25,26 @@ CFG = dict(
         (IC, 'operator>=', 1, 'bool (double) const'): 'IntervalConstraint__op_ge_d',
         (IC, 'operator<=', 1, 'bool (const bpp::IntervalConstraint &) const'): 'IntervalConstraint__op_le_I',
     },
-    free={('MINF',): 'NumConstants__MINF', ('PINF',): 'NumConstants__PINF', ('TINY',): 'NumConstants__TINY'},
+    free={('MINF',): 'NumConstants__MINF', ('PINF',): 'NumConstants__PINF', ('TINY',): 'NumConstants__TINY',
+          ('abs', 'double (double)'): 'verif_fabs'},
+    range_for={VL: ('Vec_p_ParameterListener__size', 'Vec_p_ParameterListener__op_index')},
+    drop={'OutputStream__op_shl', 'OutputStream__endLine'},
     ghost_fields={CI: 'int verif_kind;'},
     ctor_tag={IC: 'self->verif_kind = KIND_IntervalConstraint;'},
     throws={'DYNCASTREF__IntervalConstraint'},
+    consts={},
 )
 
-STRUCTS = [CI, IC]
+STRUCTS = [CI, IC, PA, PE, AP]
 
 PRE_STRUCTS = r'''
+#include "str.h"
+#include "vec.h"
+static inline double verif_fabs(double x) { return __CPROVER_fabs(x); }
 enum { KIND_other = 0, KIND_IntervalConstraint = 1 };
+typedef struct ParameterListener ParameterListener;
+typedef struct OutputStream OutputStream;
+VEC_DECL(ParameterListener*, Vec_p_ParameterListener)
 '''
 
 PRELUDE = r'''
@@ -49,7 +65,44 @@ static inline IntervalConstraint* DYNCASTREF__IntervalConstraint(const Constrain
 #define IC_FRESH(I) __CPROVER_is_fresh(I, sizeof(IntervalConstraint))
 #define SAME_IC(a, b) (LB(a) == LB(b) && UB(a) == UB(b) && IL(a) == IL(b) && IU(a) == IU(b) && (a)->precision_ == (b)->precision_)
 double verif_gv; /* ghost value, universally quantified */
+
+/* ---- Parameter ---- */
+/* value semantics of the members that do not matter for C01: shallow copies */
+static inline void Str__ctor_copy(Str *s, const Str *o) { *s = *o; }
+static inline Str *Str__op_assign(Str *s, const Str *o) { *s = *o; return s; }
+static inline void Vec_p_ParameterListener__ctor_copy(Vec_p_ParameterListener *s, const Vec_p_ParameterListener *o) { *s = *o; }
+static inline Vec_p_ParameterListener *Vec_p_ParameterListener__op_assign(Vec_p_ParameterListener *s, const Vec_p_ParameterListener *o) { *s = *o; return s; }
+
+/* interface contract of ConstraintInterface: acceptance is a pure function of (constraint state, value).
+   For the interval class it is the contract proved for IntervalConstraint::isCorrect (job p_IntervalConstraint__isCorrect);
+   for every other class it is an uninterpreted function of the object identity and the value. */
+_Bool __CPROVER_uninterpreted_accepts(const void *, double);
+double __CPROVER_uninterpreted_limit(const void *, double);
+#define CI_IS_IC(c) ((c)->verif_kind == KIND_IntervalConstraint)
+#define CI_ACCEPTS(c, v) (CI_IS_IC(c) ? MEM((const IntervalConstraint*)(c), v) : __CPROVER_uninterpreted_accepts(c, v))
+#define CI_OK(c) ((c) == 0 || (__CPROVER_is_fresh(c, sizeof(IntervalConstraint)) && (CI_IS_IC(c) ==> IC_VALID((const IntervalConstraint*)(c)))))
+_Bool ConstraintInterface__isCorrect(const ConstraintInterface *c, double v)
+  __CPROVER_requires(c != 0)
+  __CPROVER_ensures(__CPROVER_return_value == CI_ACCEPTS(c, v))
+  __CPROVER_assigns();
+#define IC_ACCLIMIT(I, v) (MEM(I, v) ? (v) : ((v) <= LB(I) ? (IL(I) ? LB(I) : LB(I) + PREC(I)) : (IU(I) ? UB(I) : UB(I) - PREC(I))))
+double ConstraintInterface__getAcceptedLimit(const ConstraintInterface *c, double v)
+  __CPROVER_requires(c != 0)
+  __CPROVER_ensures((CI_IS_IC(c) && LB((const IntervalConstraint*)c) <= UB((const IntervalConstraint*)c) && !VERIF_ISNAN(v)) ==> __CPROVER_return_value == IC_ACCLIMIT((const IntervalConstraint*)c, v))
+  __CPROVER_assigns();
+/* listeners: callbacks do not write the notifying parameter (assumption) */
+void ParameterListener__parameterValueChanged(ParameterListener *l, ParameterEvent *e) __CPROVER_requires(1) __CPROVER_ensures(1) __CPROVER_assigns();
+void ParameterListener__parameterNameChanged(ParameterListener *l, ParameterEvent *e) __CPROVER_requires(1) __CPROVER_ensures(1) __CPROVER_assigns();
+
+/* the class invariant of C01 */
+#define P_INV(p) ((p)->constraint_ == 0 || CI_ACCEPTS((p)->constraint_, (p)->value_))
+#define P_OK(p, T) (__CPROVER_is_fresh(p, sizeof(T)) && VEC_FRESH(&(p)->listeners_) && CI_OK((p)->constraint_) && !VERIF_ISNAN((p)->precision_) && (p)->precision_ >= 0 && !VERIF_ISNAN((p)->value_))
+#define P_SAME(p) ((p)->value_ == __CPROVER_old((p)->value_) && (p)->constraint_ == __CPROVER_old((p)->constraint_) && (p)->precision_ == __CPROVER_old((p)->precision_))
 '''
+
+STUB_CONTRACTS = {'ConstraintInterface__isCorrect', 'ConstraintInterface__getAcceptedLimit',
+                  'ParameterListener__parameterValueChanged', 'ParameterListener__parameterNameChanged'}
+
 
 def getter(name, field):
     return dict(cname='IntervalConstraint__' + name, qname=IC + '::' + name,
@@ -145,10 +198,86 @@ FUNCS = [
          assigns=['*self', 'verif_exc', 'verif_exc_caught']),
 ]
 
+FUNCS += [
+    dict(cname='ParameterEvent__ctor_1', qname=PE + '::ParameterEvent', sig='void (bpp::Parameter *)',
+         requires=['__CPROVER_is_fresh(self, sizeof(ParameterEvent))'], ensures=['self->parameter_ == parameter'], assigns=['*self']),
+    dict(cname='Parameter__fireParameterValueChanged', qname=PA + '::fireParameterValueChanged',
+         requires=['__CPROVER_is_fresh(self, sizeof(Parameter))', 'VEC_FRESH(&self->listeners_)', '__CPROVER_is_fresh(event, sizeof(ParameterEvent))'],
+         ensures=['1'], assigns=[],
+         loops={1: dict(assigns='verif_i1', invariant=['verif_i1 <= verif_rng1->n'], decreases='verif_rng1->n - verif_i1')}),
+    dict(cname='Parameter__setValue', qname=PA + '::setValue',
+         requires=['P_OK(self, Parameter)', 'P_INV(self)'],
+         ensures=['P_INV(self)',
+                  'verif_exc == 0 || verif_exc == EXC_ConstraintException',
+                  # a rejected update raises a constraint error and leaves value and constraint as they were
+                  'verif_exc != 0 ==> P_SAME(self)',
+                  'self->constraint_ == __CPROVER_old(self->constraint_) && self->precision_ == __CPROVER_old(self->precision_)',
+                  '(verif_exc == 0 && verif_fabs(value - __CPROVER_old(self->value_)) > __CPROVER_old(self->precision_) / 2) ==> self->value_ == value',
+                  '!(verif_fabs(value - __CPROVER_old(self->value_)) > __CPROVER_old(self->precision_) / 2) ==> (verif_exc == 0 && self->value_ == __CPROVER_old(self->value_))',
+                  '(verif_exc != 0) == (verif_fabs(value - __CPROVER_old(self->value_)) > __CPROVER_old(self->precision_) / 2 && self->constraint_ != 0 && !CI_ACCEPTS(self->constraint_, value))'],
+         assigns=['self->value_', 'verif_exc'], split=True, mirror={'self': PA, 'self->constraint_': IC}, cex_requires=['self->constraint_ == 0 || CI_IS_IC(self->constraint_)']),
+    dict(cname='Parameter__setPrecision', qname=PA + '::setPrecision',
+         requires=['P_OK(self, Parameter)', 'P_INV(self)', '!VERIF_ISNAN(precision)'],
+         ensures=['P_INV(self)', 'self->precision_ == (precision < 0 ? 0 : precision)', 'self->precision_ >= 0'],
+         assigns=['self->precision_']),
+    dict(cname='Parameter__setConstraint', qname=PA + '::setConstraint',
+         requires=['P_OK(self, Parameter)', 'P_INV(self)', 'CI_OK(constraint)'],
+         ensures=['P_INV(self)',
+                  'verif_exc == 0 || verif_exc == EXC_ConstraintException',
+                  '(verif_exc != 0) == (constraint != 0 && !CI_ACCEPTS(constraint, self->value_))',
+                  'verif_exc != 0 ==> P_SAME(self)',
+                  'verif_exc == 0 ==> (self->constraint_ == constraint && self->value_ == __CPROVER_old(self->value_))'],
+         assigns=['self->constraint_', 'verif_exc'], mirror={'self': PA, 'self->constraint_': IC, 'constraint': IC}, cex_requires=['self->constraint_ == 0 || CI_IS_IC(self->constraint_)', 'constraint == 0 || CI_IS_IC(constraint)']),
+    dict(cname='Parameter__removeConstraint', qname=PA + '::removeConstraint',
+         requires=['P_OK(self, Parameter)', 'P_INV(self)'],
+         ensures=['P_INV(self)', 'self->constraint_ == 0', '__CPROVER_return_value == __CPROVER_old(self->constraint_)', 'self->value_ == __CPROVER_old(self->value_)'],
+         assigns=['self->constraint_']),
+    dict(cname='Parameter__ctor_4', qname=PA + '::Parameter', sig='void (const std::string &, double, std::shared_ptr<ConstraintInterface>, double)',
+         requires=['__CPROVER_is_fresh(self, sizeof(Parameter))', '__CPROVER_is_fresh(name, sizeof(Str))', 'CI_OK(constraint)', '!VERIF_ISNAN(value)', '!VERIF_ISNAN(precision)'],
+         ensures=['verif_exc == 0 || verif_exc == EXC_ConstraintException',
+                  # after construction the parameter holds the requested value and the constraint accepts it - for every value, 0 included
+                  'verif_exc == 0 ==> (self->value_ == value && self->constraint_ == constraint && P_INV(self) && self->precision_ == (precision < 0 ? 0 : precision) && self->listeners_.n == 0)',
+                  '(verif_exc != 0) == (constraint != 0 && !CI_ACCEPTS(constraint, value))'],
+         assigns=['*self', 'verif_exc'], mirror={'constraint': IC}, cex_requires=['constraint == 0 || CI_IS_IC(constraint)']),
+    dict(cname='Parameter__ctor_copy', qname=PA + '::Parameter', sig='void (const bpp::Parameter &)',
+         requires=['__CPROVER_is_fresh(self, sizeof(Parameter))', 'P_OK(p, Parameter)', 'P_INV(p)'],
+         ensures=['self->value_ == p->value_ && self->constraint_ == p->constraint_ && self->precision_ == p->precision_', 'P_INV(self)',
+                  'self->listeners_.n == p->listeners_.n && self->listeners_.d == p->listeners_.d'],
+         assigns=['*self']),
+    dict(cname='Parameter__op_assign', qname=PA + '::operator=',
+         requires=['P_OK(self, Parameter)', 'P_OK(p, Parameter)', 'P_INV(p)'],
+         ensures=['self->value_ == p->value_ && self->constraint_ == p->constraint_ && self->precision_ == p->precision_', 'P_INV(self)',
+                  '__CPROVER_return_value == self'],
+         assigns=['*self']),
+    dict(cname='Parameter__getValue', qname=PA + '::getValue', requires=['__CPROVER_is_fresh(self, sizeof(Parameter))', '!VERIF_ISNAN(self->value_)'],
+         ensures=['__CPROVER_return_value == self->value_'], assigns=[]),
+    dict(cname='Parameter__hasConstraint', qname=PA + '::hasConstraint', requires=['__CPROVER_is_fresh(self, sizeof(Parameter))'],
+         ensures=['__CPROVER_return_value == (self->constraint_ != 0)'], assigns=[]),
+]
+
+AUTO_C = '((const IntervalConstraint*)self->constraint_)'
+FUNCS += [
+    dict(cname='AutoParameter__setValue', qname=AP + '::setValue',
+         requires=['P_OK(self, AutoParameter)', 'P_INV(self)', 'VERIF_ISFINITE(value)', 'self->precision_ == 0',
+                   # quantifier of C01 for the auto-correcting variant: interval constraints, |bounds| <= 1e3 (or infinite),
+                   # at least 1e-9 wide, constraint precision one step of 1e-12 .. 1e-10
+                   'self->constraint_ != 0 ==> (CI_IS_IC(self->constraint_) && (LB(%s) == VERIF_MINF || (LB(%s) >= -1e3 && LB(%s) <= 1e3)) && (UB(%s) == VERIF_PINF || (UB(%s) >= -1e3 && UB(%s) <= 1e3)) && UB(%s) - LB(%s) >= 1e-9 && PREC(%s) >= 1e-12 && PREC(%s) <= 1e-10)' % ((AUTO_C,) * 10),
+                   'value >= -1e3 && value <= 1e3'],
+         ensures=['verif_exc == 0',                     # never raises for a finite request
+                  'P_INV(self)',
+                  'self->constraint_ == __CPROVER_old(self->constraint_)',
+                  'self->constraint_ == 0 ==> self->value_ == value',
+                  # ends on the accepted value nearest to the request (one precision step inside an open bound)
+                  'self->constraint_ != 0 ==> self->value_ == IC_ACCLIMIT(%s, value)' % AUTO_C],
+         assigns=['self->value_', 'verif_exc', 'verif_exc_caught'], split=True,
+         mirror={'self': AP, 'self->constraint_': IC}),
+]
+
 LEMMAS = []
 REPLAY = {c: dict(adapter='c01_interval.cpp') for c in
           ['IntervalConstraint__isEmpty', 'IntervalConstraint__op_and', 'IntervalConstraint__op_andeq', 'IntervalConstraint__isCorrect',
            'IntervalConstraint__includes', 'IntervalConstraint__getLimit', 'IntervalConstraint__getAcceptedLimit']}
+REPLAY.update({c: dict(adapter='c01_parameter.cpp') for c in ['Parameter__ctor_4', 'Parameter__setValue', 'Parameter__setConstraint', 'AutoParameter__setValue']})
 
 TRUSTED = ['NumConstants::PINF/MINF/TINY modelled as +inf, -inf, 1e-12 (the real code computes the infinities with std::log(0))',
            'dynamic_cast modelled by a ghost type tag set by the extracted constructors']
